@@ -14,3 +14,5 @@ import IOptProps.C01
 import IOptProps.C08holder
 import IOptProps.C13
 import IOptProps.C05
+import IOptProps.C01dimN
+import IOptProps.C17
